@@ -74,6 +74,10 @@ def run_impl_lines(ctx, driver, lines, nprocs=0, env=None, timeout=900, args=(),
     if ctx.quick(): timeout = min(timeout, 300)     # a hang must not stall the per-change tier
     while todo and n <= max_restarts and hangs < 2:
         cf = write_cases(ctx, "%s.%d" % (name, n), todo)
+        keep = os.environ.get("VERIF_KEEP_CASES")
+        if keep and n == 0:
+            os.makedirs(keep, exist_ok=True)
+            shutil.copy(cf, os.path.join(keep, "%s.%d.%s.cases" % (driver, nprocs or 0, name)))
         rc, out, raw, err = run_impl(ctx, driver, cf, nprocs=nprocs, env=env, timeout=timeout, args=args)
         results.update(out)
         if rc == 0: break
